@@ -46,7 +46,10 @@ Definition names_ok : bool :=
   && forallb (fun s => opt_is_lcb (resolve map_acq_func s)) user_ucb
   && forallb (fun s => opt_is_lcb (resolve map_multi_point_strategy s)) user_qucb
   && forallb (fun s => String.eqb (resolve map_acq_func s) s) user_same_acq
-  && forallb (fun s => String.eqb (resolve map_multi_point_strategy s) s) user_same_strategy.
+  && forallb (fun s => String.eqb (resolve map_multi_point_strategy s) s) user_same_strategy
+  (* every name CBO accepts has a declared meaning above (a newly accepted name fails closed) *)
+  && forallb (fun s => existsb (String.eqb s) (map fst user_lies ++ user_qucb ++ user_same_strategy)) cbo_multi_point_strategy_allowed
+  && forallb (fun s => existsb (String.eqb s) (user_ucb ++ user_same_acq)) cbo_acq_func_allowed.
 
 (* the proof obligation that consumes the generated facts: a changed table entry makes this fail *)
 Lemma names_ok_true : names_ok = true.
@@ -70,7 +73,9 @@ Lemma name_maps :
   /\ (forall kappa mu sigma, (acq_lcb kappa (- mu) sigma == - ucb kappa mu sigma)%Q)
   /\ (forall s, In s user_same_acq -> resolve map_acq_func s = s)
   /\ (forall s, In s user_same_strategy -> resolve map_multi_point_strategy s = s)
-  /\ (forall best xi mu, (improve_min (- best) xi (- mu) == improve_max best xi mu)%Q).
+  /\ (forall best xi mu, (improve_min (- best) xi (- mu) == improve_max best xi mu)%Q)
+  /\ (forall s, In s cbo_multi_point_strategy_allowed -> In s (map fst user_lies ++ user_qucb ++ user_same_strategy))
+  /\ (forall s, In s cbo_acq_func_allowed -> In s (user_ucb ++ user_same_acq)).
 Proof.
   pose proof names_ok_true as H. unfold names_ok in H.
   repeat (apply andb_true_iff in H; destruct H as [H ?]).
@@ -78,12 +83,15 @@ Proof.
   match goal with
   | [ H1 : forallb _ user_lies = true, H2 : forallb _ user_fills = true, H3 : match opt_fpol _ with _ => _ end = true,
       H4 : forallb _ user_ucb = true, H5 : forallb _ user_qucb = true, H6 : forallb _ user_same_acq = true,
-      H7 : forallb _ user_same_strategy = true |- _ ] =>
+      H7 : forallb _ user_same_strategy = true, H8 : forallb _ cbo_multi_point_strategy_allowed = true,
+      H9 : forallb _ cbo_acq_func_allowed = true |- _ ] =>
       rewrite forallb_forall in H1, H2, H4, H5, H6, H7;
       rename H1 into Hl; rename H2 into Hf; rename H3 into Hi; rename H4 into Hu; rename H5 into Hq;
-      rename H6 into Ha; rename H7 into Hs
+      rename H6 into Ha; rename H7 into Hs; rename H8 into Hall1; rename H9 into Hall2
   end.
-  split; [exact Hok|]. split; [|split; [|split; [|split; [|split; [|split; [|split; [|split]]]]]]].
+  assert (EqIn : forall s l, existsb (String.eqb s) l = true -> In s l).
+  { intros s l E. apply existsb_exists in E as [x [Hx E]]. apply String.eqb_eq in E. subst. exact Hx. }
+  split; [exact Hok|]. split; [|split; [|split; [|split; [|split; [|split; [|split; [|split; [|split; [|split]]]]]]]]].
   - intros s k Hin. specialize (Hl (s, k) Hin). cbn [fst snd] in Hl. split; [|intros ys; apply lie_dual].
     destruct (opt_lie_kind (resolve map_multi_point_strategy s)) as [k'|]; [|discriminate].
     apply lkind_match in Hl. congruence.
@@ -96,4 +104,6 @@ Proof.
   - intros s Hin. apply String.eqb_eq. apply Ha. exact Hin.
   - intros s Hin. apply String.eqb_eq. apply Hs. exact Hin.
   - intros. apply improve_dual.
+  - intros s Hin. apply EqIn. rewrite forallb_forall in Hall1. apply Hall1. exact Hin.
+  - intros s Hin. apply EqIn. rewrite forallb_forall in Hall2. apply Hall2. exact Hin.
 Qed.
